@@ -256,7 +256,7 @@ def make_many_script(rng, name, kind=None):
 
 def make_removal_script(rng, name, kind=None):
     """C10 for HashTable: retain / extract_if / drain on collision runs, then refill and observe."""
-    kind = kind or rng.choice(["table-drop", "table-plain", "table-200"])
+    kind = kind or rng.choice(["table-drop", "table-plain", "table-200", "table-zst", "table-zst64", "table-1", "table-3", "table-17"])
     plan = rng.choice(["zero", "max", "lowpos", "twotags", "wrap", "sametag", "mix", "seq"])
     n = rng.choice([3, 7, 9, 14, 16, 17, 24, 28, 33, 40, 56, 57])
     salt = rng.getrandbits(32)
